@@ -22,7 +22,7 @@ Proof. exact encode_canonical. Qed.
 Print Assumptions C14_canonical.
 
 (* decoding the encoding (followed by anything) returns the value and consumes exactly the encoding *)
-Theorem C14_roundtrip_buffer : forall k b n r, bb_inv b -> bb_unread b = vi_encode n ++ r ->
+Theorem C14_roundtrip_buffer : forall k b n r, bb_inv b -> bb_tail b = vi_encode n ++ r ->
   n < 2 ^ (match k with KU32 | KS32 => 32 | _ => 64 end) ->
   exists b', vi_decode k b = (VOk n (vi_length n), b') /\
              bb_offset b' = bb_offset b + vi_length n /\ bb_mem b' = bb_mem b /\ bb_used b' = bb_used b.
@@ -57,8 +57,8 @@ Theorem C14_short : forall fuel l i acc,
 Proof. exact dec_list_short. Qed.
 Print Assumptions C14_short.
 
-(* the buffer decoder reads the unread octets [offset, used) only: its result is a function of them *)
-Theorem C14_no_overread : forall k b1 b2, bb_inv b1 -> bb_inv b2 -> bb_unread b1 = bb_unread b2 ->
+(* the buffer decoder reads the buffer's memory [offset, size) only: its result is a function of those octets *)
+Theorem C14_no_overread : forall k b1 b2, bb_inv b1 -> bb_inv b2 -> bb_tail b1 = bb_tail b2 ->
   match fst (vi_decode k b1), fst (vi_decode k b2) with
   | VOk u1 c1, VOk u2 c2 => u1 = u2 /\ c1 = c2
   | VIllegal, VIllegal | VShort, VShort => True
@@ -67,7 +67,7 @@ Theorem C14_no_overread : forall k b1 b2, bb_inv b1 -> bb_inv b2 -> bb_unread b1
 Proof. exact decode_reads_unread_only. Qed.
 Print Assumptions C14_no_overread.
 Theorem C14_buffer_decoder_is_list_decoder : forall fuel b i acc, bb_inv b ->
-  vi_decode_loop fuel b i acc = dec_list fuel (skipn (N.to_nat i) (bb_unread b)) i acc.
+  vi_decode_loop fuel b i acc = dec_list fuel (skipn (N.to_nat i) (bb_tail b)) i acc.
 Proof. exact decode_loop_list. Qed.
 Print Assumptions C14_buffer_decoder_is_list_decoder.
 Theorem C14_error_consumes_nothing : forall k b,
